@@ -138,6 +138,23 @@ func RunProperty(c *core.Ctx, prop string, plan Plan, crashIsViolation bool, ext
 		if chainClass(cs) == "multi-hold" {
 			sig = prop + ":multi-hold-chain"
 		}
+		hasSplit := false
+		for _, a := range cs.Chain {
+			if fmt.Sprint(a["type"]) == "split" {
+				hasSplit = true
+			}
+		}
+		if hasSplit && cs.DLQ != nil && strings.Contains(res.Stderr, "insane-json") {
+			// split children alias their parent's JSON tree; with a dead queue the
+			// parent is recycled while children still wait there (listed C05
+			// finding): here the reader of such a child died instead of racing
+			if prop == "C05" {
+				c.Violation("C05:event-race:split:dlq", "the process died reading a split child whose parent had been recycled: "+msg, map[string]any{"case": cs, "stderr": core.Trunc(res.Stderr, 4000)})
+			} else {
+				c.Inconclusive("process died reading a split child whose parent had been recycled (listed C05 finding)")
+			}
+			return
+		}
 		if crashIsViolation {
 			c.Violation(sig, "the process died while the pipeline was running: "+msg, map[string]any{"case": cs, "stderr": core.Trunc(res.Stderr, 4000), "history_tail": res.Log})
 		} else {
